@@ -653,7 +653,7 @@ def extraction(ctx: Ctx):
     for pair in PAIRS:
         picked = disp.get(pair)
         if picked is None:
-            ctx.violated("dispatch", f"{LY.MCM}::_BaseCubeCounts.factory[{pair}]", "no class", "total dispatch")
+            ctx.undecided("dispatch", f"{LY.MCM}::_BaseCubeCounts.factory[{pair}]", "no class derived for this kind (the dispatch is not in a form the table understands)", "total dispatch")
             continue
         ci, leaf = picked
         leaves = {"self._counts": source("_counts", L.src_roles(*pair))}
@@ -669,7 +669,7 @@ def extraction(ctx: Ctx):
         for pair in MRPAIRS:
             picked = d.get(pair)
             if picked is None:
-                ctx.violated("dispatch", f"{LY.MCM}::{base}.factory[{pair}]", "no class", "total dispatch")
+                ctx.undecided("dispatch", f"{LY.MCM}::{base}.factory[{pair}]", "no class derived for this kind (the dispatch is not in a form the table understands)", "total dispatch")
                 continue
             ci, leaf = picked
             rmr, cmr = pair[0] == "MR", pair[1] == "MR"
@@ -680,7 +680,7 @@ def extraction(ctx: Ctx):
     sd = LY.factory_dispatch(ctx, LY.SCM, "_BaseCubeCounts", [("CAT",), ("MR",), ("NUM",)], lambda t: False)
     for (k,), picked in sd.items():
         if picked is None:
-            ctx.violated("dispatch", f"{LY.SCM}::_BaseCubeCounts.factory[{k}]", "no class", "total dispatch")
+            ctx.undecided("dispatch", f"{LY.SCM}::_BaseCubeCounts.factory[{k}]", "no class derived for this kind (the dispatch is not in a form the table understands)", "total dispatch")
             continue
         ci, _ = picked
         kind = "ARR" if k == "NUM" else k
@@ -695,7 +695,7 @@ def extraction(ctx: Ctx):
         d = LY.factory_dispatch(ctx, LY.SCM, base, [("CAT",), ("MR",)], lambda t: False)
         for (k,), picked in d.items():
             if picked is None:
-                ctx.violated("dispatch", f"{LY.SCM}::{base}.factory[{k}]", "no class", "total dispatch")
+                ctx.undecided("dispatch", f"{LY.SCM}::{base}.factory[{k}]", "no class derived for this kind (the dispatch is not in a form the table understands)", "total dispatch")
                 continue
             ci, _ = picked
             LY.check_layout(ctx, "extract.stripe", ci, member, {f"self.{field_}": source(field_, L.stripe_roles(k))}, L.stripe(k, "counts"), f"stripe kind {k}")
